@@ -1,0 +1,51 @@
+//go:build verif
+
+// Contracts for package table, read by the verifier in /verif (gvc). This file contains no
+// code: it is compiled only under the build tag "verif" and then only declares the package.
+
+package table
+
+// ---- bloom filter use (C19) ----
+
+// The filter consulted is the one stored in the table's index, the hash is the caller's, and
+// "does not have" is answered only when the filter says so.
+//@ func (*Table).DoesNotHave
+//@   props C19
+//@   light
+//@   ensures[needs-filter] result ==> t.hasBloomFilter
+//@   assert[same-hash] before call MayContain : arg1 == hash
+//@   assert[stored-filter] before call MayContain : arg0 == bf
+//@   assert[negation] before return#2 : result == !mayContain
+//@   assigns nothing
+
+// Every key added to the table contributes the hash of its user key.
+//@ func (*Builder).addHelper
+//@   props C19
+//@   light
+//@   requires len(key) >= 8
+//@   assert[key-hash] before call append#1 : arg1[0] == ret(Hash#1)
+//@   assert[hash-of-userkey] before call Hash#1 : arg0 == ret(ParseKey#1)
+//@   assert[userkey-of-key] before call ParseKey#1 : arg0 == key
+//@   note C19: light mode: only the hash appended to keyHashes is checked here; block layout is C18
+
+// The filter is built from all collected hashes.
+//@ func (*Builder).Done
+//@   props C19
+//@   light
+//@   assert[all-hashes] before call NewFilter : arg0 == b.keyHashes
+
+// ---- accessors ----
+
+//@ func (*Table).Smallest
+//@   props C05 C14
+//@   ensures result == t.smallest
+//@ func (*Table).Biggest
+//@   props C05 C14
+//@   ensures result == t.biggest
+//@ func (*Table).ID
+//@   props C14
+//@   ensures result == t.id
+//@ trusted func (*Table).MaxVersion
+//@ trusted func @(github.com/dgraph-io/badger/v4/table.TableInterface).Smallest
+//@ trusted func @(github.com/dgraph-io/badger/v4/table.TableInterface).Biggest
+//@ trusted func @(github.com/dgraph-io/badger/v4/table.TableInterface).MaxVersion
